@@ -9,9 +9,10 @@
    really carries with a duplicate- and order-preserving token reader and
    prints the tree. Struct-decoding rules mirrored here (decode.go):
    * members are applied in order; a member name selects the field whose name
-     is equal after ASCII case folding (exact match first: the same field,
-     since the folded field names are pairwise distinct); other members are
-     skipped whatever their value;
+     is equal after case folding (ASCII letters, plus the two non-ASCII runes
+     that fold to an ASCII letter: long s and the Kelvin sign; exact match
+     first: the same field, since the folded field names are pairwise
+     distinct); other members are skipped whatever their value;
    * null is a no-op for string / integer / struct targets and resets map,
      slice and pointer targets to nil;
    * a duplicate member decodes into the value already there: struct fields
@@ -41,15 +42,33 @@ Definition up (a : ascii) : ascii :=
   let n := N_of_ascii a in
   if ((97 <=? n) && (n <=? 122))%N then ascii_of_N (n - 32) else a.
 
+(* Go's foldName folds by Unicode simple folding; the only non-ASCII runes in
+   the folding orbit of an ASCII letter are U+017F (long s, bytes C5 BF, orbit
+   of S) and U+212A (Kelvin sign, bytes E2 84 AA, orbit of K). Every other
+   non-ASCII rune folds to a non-ASCII rune, so it can never make a key equal
+   to one of the (ASCII) field names; such bytes are left as they are. *)
+Definition byte_is (a : ascii) (n : N) : bool := (N_of_ascii a =? n)%N.
+
 Fixpoint fold (s : string) : string :=
   match s with
   | EmptyString => EmptyString
-  | String a s' => String (up a) (fold s')
+  | String a s1 =>
+      match s1 with
+      | String b s2 =>
+          if byte_is a 197 && byte_is b 191 then String "S" (fold s2)
+          else match s2 with
+               | String c s3 =>
+                   if byte_is a 226 && byte_is b 132 && byte_is c 170 then String "K" (fold s3)
+                   else String (up a) (fold s1)
+               | EmptyString => String (up a) (fold s1)
+               end
+      | EmptyString => String (up a) EmptyString
+      end
   end.
 
 Definition fold_eqb (a b : string) : bool := String.eqb (fold a) (fold b).
 
-(* ---------- base64.StdEncoding.Decode succeeds (no CR / LF in the text) ---------- *)
+(* ---------- base64.StdEncoding.Decode succeeds ---------- *)
 Definition is64 (a : ascii) : bool :=
   let n := N_of_ascii a in
   (((65 <=? n) && (n <=? 90)) || ((97 <=? n) && (n <=? 122)) || ((48 <=? n) && (n <=? 57))
@@ -66,7 +85,10 @@ Fixpoint b64_ok_l (l : list ascii) : bool :=
       end
   | _ => false
   end.
-Definition b64_ok (s : string) : bool := b64_ok_l (list_ascii_of_string s).
+(* the decoder skips CR and LF wherever they stand *)
+Definition is_crlf (a : ascii) : bool := let n := N_of_ascii a in ((n =? 13) || (n =? 10))%N.
+Definition b64_ok (s : string) : bool :=
+  b64_ok_l (filter (fun a => negb (is_crlf a)) (list_ascii_of_string s)).
 
 (* ---------- ocispec.Descriptor / Platform as decoding targets ---------- *)
 Inductive dfield := FMediaType | FDigest | FSize | FUrls | FAnnotations | FData | FPlatform | FArtifactType.
